@@ -347,6 +347,18 @@ impl LightClientProtocol {
     ) -> Result<(), Status> {
         self.check_verifiable_header(&last_header)?;
         let last_state = LastState::new(last_header);
+        // Same as for the `SendLastState` message: the last state which the peer already has is
+        // not an update, so the timestamp is kept (the peer is disconnected after the timeout)
+        // and it is not an answer for a last state request.
+        let is_unchanged = self
+            .get_peer_state(&peer_index)?
+            .get_last_state()
+            .map(|prev_last_state| last_state.is_same_as(prev_last_state))
+            .unwrap_or(false);
+        if is_unchanged {
+            trace!("peer {}: receive the same last state", peer_index);
+            return Ok(());
+        }
         trace!("peer {}: update last state", peer_index);
         self.peers().update_last_state(peer_index, last_state)?;
         Ok(())
